@@ -246,7 +246,17 @@ func barriersSatisfiable(d *Desc) bool {
 		}
 		p := programs[x.Prog].P
 		if p.Par == nil {
-			return false
+			// flow barrier: its parties must still be planned to succeed
+			ok := 0
+			for id := range x.BarrierSet {
+				if x.TaskOut[id] == progen.OK {
+					ok++
+				}
+			}
+			if ok < x.BarrierN || x.BarrierN < 2 {
+				return false
+			}
+			continue
 		}
 		bodies := 0
 		for _, t := range p.Par.Tasks {
